@@ -356,7 +356,12 @@ func driveImports(c *Ctx) error {
 		if nImports > 0 {
 			nt = []string{"C14"}
 		}
-		c.W.Add(tr.M{"seed": in.Seed}, []tr.M{ev}, nt...)
+		evs := []tr.M{ev}
+		if iev := iconsEvent(in.Seed); iev != nil {
+			evs = append(evs, iev)
+			nt = []string{"C14"}
+		}
+		c.W.Add(tr.M{"seed": in.Seed}, evs, nt...)
 		if nImports > 1 {
 			c.W.Sample("C14", tr.M{"seed": in.Seed, "files": firstN(all.String(), 600)})
 		}
@@ -379,4 +384,76 @@ func sameSet(a, b string) bool {
 		}
 	}
 	return true
+}
+
+// iconsEvent: the rebasing rule for icons. A chain of 1-3 imports (spread, under a key, in a map), every file in its own
+// directory and declaring one object with an icon: relative in several spellings, absolute, or a URL. The event carries the
+// import paths as written (token lists) and the compiled icons; TraceD2Imports computes what the icon has to be.
+func iconsEvent(seed int64) tr.M {
+	r := rand.New(rand.NewSource(seed*7001 + 11))
+	vals := []string{"img/a.png", "./b.svg", "../c.png", "/usr/share/icons/db.png", "https://icons.example.com/x.svg", "d.png", "sub/e.png", "../../f.png", "/abs.svg", "x/../y.png"}
+	paths := []string{"index.d2", "lib/f2.d2", "lib/deep/f3.d2", "other/f4.d2"}
+	n := 2 + r.Intn(3) // files in the chain
+	if r.Intn(2) == 0 {
+		paths[1], paths[3] = paths[3], paths[1]
+	}
+	fs := fstest.MapFS{}
+	objs := []tr.M{}
+	var steps [][]string // the import path written in file k-1 to reach file k, as tokens
+	prefix := ""         // key path under which file k's content lands
+	for k := 0; k < n; k++ {
+		var sb strings.Builder
+		v := vals[r.Intn(len(vals))]
+		id := fmt.Sprintf("o%d", k)
+		if r.Intn(2) == 0 {
+			fmt.Fprintf(&sb, "%s.icon: %s\n", id, v)
+		} else {
+			fmt.Fprintf(&sb, "%s: {\n  icon: %s\n}\n", id, v)
+		}
+		kind := "rel"
+		if strings.Contains(v, "://") {
+			kind = "url"
+		} else if strings.HasPrefix(v, "/") {
+			kind = "abs"
+		}
+		objs = append(objs, tr.M{"id": prefix + id, "kind": kind, "val": v, "toks": strings.Split(v, "/"), "steps": append([][]string{}, steps...), "got": "", "gotToks": []string{}})
+		if k+1 < n {
+			sp := strings.Trim(importSpelling(paths[k], paths[k+1], r.Intn(3)), "\"")
+			q := "\"" + sp + "\""
+			switch r.Intn(3) {
+			case 0:
+				fmt.Fprintf(&sb, "...@%s\n", q)
+			case 1:
+				fmt.Fprintf(&sb, "k%d: @%s\n", k, q)
+				prefix += fmt.Sprintf("k%d.", k)
+			case 2:
+				fmt.Fprintf(&sb, "k%d: {\n  ...@%s\n}\n", k, q)
+				prefix += fmt.Sprintf("k%d.", k)
+			}
+			steps = append(steps, strings.Split(strings.TrimSuffix(sp, ".d2"), "/"))
+		}
+		fs[paths[k]] = &fstest.MapFile{Data: []byte(sb.String())}
+	}
+	ev := tr.M{"ev": "icons", "err": 0, "msg": "", "objs": objs}
+	func() {
+		defer func() {
+			if p := recover(); p != nil {
+				ev["err"], ev["msg"] = 1, "panic: "+firstN(fmt.Sprint(p), 160)
+			}
+		}()
+		g, _, err := d2compiler.Compile("index.d2", strings.NewReader(string(fs["index.d2"].Data)), &d2compiler.CompileOptions{FS: fs})
+		if err != nil {
+			ev["err"], ev["msg"] = 1, firstN(err.Error(), 200)
+			return
+		}
+		for _, o := range objs {
+			for _, x := range g.Objects {
+				if x.AbsID() == o["id"] && x.Icon != nil {
+					o["got"] = x.Icon.String()
+					o["gotToks"] = strings.Split(x.Icon.String(), "/")
+				}
+			}
+		}
+	}()
+	return ev
 }
